@@ -24,3 +24,11 @@ func VsymBytesEq(a, b []byte) bool               { return vBytesEq(a, b) }
 func VsymBulk(b []byte) []byte                   { return vBulk(b) }
 func VsymItoa(n int) []byte                      { return vItoa(n) }
 func VsymBoundaryInts() []string                 { return vBoundaryInts }
+
+type VC16State = c16state
+
+func VsymC16Apply(st VC16State, cmd string) ([]byte, VC16State) { return c16Apply(st, cmd) }
+func VsymC16Request(cmd string) []byte                          { return c16Request(cmd) }
+func VsymC16State(k string, hasK bool, j string, hasJ bool) VC16State {
+	return c16state{k: k, hasK: hasK, j: j, hasJ: hasJ}
+}
